@@ -18,9 +18,9 @@ fn registry() -> Vec<PartDesc> {
     v.push(desc::<props::c03::C03Inject>("exploration"));
     v.push(desc::<props::c04::C04>("fault_enumeration"));
     v.push(desc::<props::c05::C05>("exploration"));
-    //WIP v.push(desc::<props::c05::e2part::C05E2>("exploration"));
-    //WIP v.push(desc::<props::c05::e2part::C05E2X>("exploration"));
-    //WIP v.push(desc::<props::c05::e2part::C05Free>("exploration"));
+    v.push(desc::<props::c05::e2part::C05E2>("exploration"));
+    v.push(desc::<props::c05::e2part::C05E2X>("exploration"));
+    v.push(desc::<props::c05::e2part::C05Free>("exploration"));
     v.push(desc::<props::c06::C06>("exploration"));
     v.push(desc::<props::c06::e2part::C06E2>("exploration"));
     v.push(desc::<props::c06::e2part::C06E2X>("exploration"));
